@@ -292,7 +292,7 @@ struct Value {
         default:
             // ascii representation
             data.resize(str.length());
-            memcpy(data.data(), str.data(), str.length());
+            if (!str.empty()) memcpy(data.data(), str.data(), str.length());
             return data;
         }
     }
